@@ -25,8 +25,8 @@ Definition wb_stride : nat := wb_chunk_max + 2.
 Record chunk := { ch_bytes : list byte; ch_len : N; ch_type : byte }.
 Record msg_auth := { ma_parity : byte; ma_key : list byte; ma_user : list byte }.
 
-(* MessageAuthUsernameRegexp  ^[0-9A-Za-z](?:[-#.0-9@A-Z_a-z]+[0-9A-Za-z])?$  on bytes: one
-   alphanumeric, or alphanumeric + at least one inner character + alphanumeric *)
+(* MessageAuthUsernameRegexp  ^[0-9A-Za-z](?:[-#.0-9@A-Z_a-z]*[0-9A-Za-z])?$  on bytes: one
+   alphanumeric, or alphanumeric + inner characters (possibly none) + alphanumeric *)
 Definition in_range (lo hi : N) (b : byte) : bool := ((lo <=? bN b) && (bN b <=? hi))%N.
 Definition is_alnum (b : byte) : bool := in_range 48 57 b || in_range 65 90 b || in_range 97 122 b.
 Definition is_inner (b : byte) : bool :=
@@ -35,7 +35,7 @@ Definition username_ok (u : list byte) : bool :=
   match u with
   | [] => false
   | [a] => is_alnum a
-  | a :: r => is_alnum a && (2 <=? length r)%nat && forallb is_inner (removelast r) && is_alnum (last r x00)
+  | a :: r => is_alnum a && forallb is_inner (removelast r) && is_alnum (last r x00)
   end.
 
 Definition get_romon (m : msg_auth) : bool := has_suffix (ma_user m) wb_romon_suffix.
